@@ -18,7 +18,7 @@ from ..tables import parse_qha_table
 
 ID = "C15"
 SHARDS = {"quick": 16, "thorough": 16}
-RULE = ("data sets as C05 (a quarter of them with one coupling constant of 1e-5..1e-4 GPa) and an output section: a drawn subset of the documented keywords in drawn alias spellings, string or "
+RULE = ("data sets as C05 (a quarter of them with one coupling constant of 1e-5..1e-4 GPa; DT_SAMPLE / DELTA_P_SAMPLE = 1, 2 or 3 grid steps) and an output section: a drawn subset of the documented keywords in drawn alias spellings, string or "
         "dict form (fname / unit overrides on scalar keywords), both bases (v only pressure base, p only volume base); "
         "non-trivial = section with >= 1 alias pair compared, >= 1 ij-keyword and NT >= 2; distinct by the drawn spec")
 ASSUMPTIONS = [
@@ -54,6 +54,7 @@ def cases(draw):
         s["tiny_coupling"] = True
         s["system"] = draw(st.sampled_from(["monoclinic", "triclinic"]))
         s["apply_system"] = False
+    s["sample_mult"] = draw(st.sampled_from([1, 1, 2, 3]))
     items = []
     n = draw(st.integers(1, 6))
     for _ in range(n):
@@ -229,7 +230,15 @@ def oracle(ctx, s, ds, qs, case):
 def build(s):
     ds = Dataset(s)
     r = place_pressures(ds)
-    return ds, (r[0] if r else None)
+    if not r:
+        return ds, None
+    qs = dict(r[0])
+    m = s.get("sample_mult", 1)
+    if m != 1:
+        # DT_SAMPLE / DELTA_P_SAMPLE are plot-sampling settings (e.g. DT 50 with the packaged DT_SAMPLE 100): the tables carry every row
+        qs["DT_SAMPLE"] = qs["DT"] * m
+        qs["DELTA_P_SAMPLE"] = qs["DELTA_P"] * m
+    return ds, qs
 
 
 def sub_outputs(ctx):
@@ -241,6 +250,7 @@ def sub_outputs(ctx):
         info = oracle(ctx, s, ds, qs, s)
         cl = ["entries=%d" % info["n"]] + ["form-" + it["form"] for it in s["items"]] + ["base-" + it["base"] for it in s["items"]]
         cl.append("tiny-coupling" if getattr(ds, "tiny_key", None) else "no-tiny-coupling")
+        cl.append("DT_SAMPLE=%dxDT" % s.get("sample_mult", 1))
         ctx.case(s, info["alias_checked"] >= 1 and info["ij"] and s["nt"] >= 2, classes=sorted(set(cl)))
 
     ctx.run_given(body, cases(), max_examples=ctx.n(96, 3000), shrink=not ctx.quick)
